@@ -288,8 +288,19 @@ fn mutations(fx: &Fixture, i: usize, form: &str) -> Vec<Mut> {
     other_rows.sort();
     other_rows.dedup();
     other_rows.retain(|r| *r != i);
+    // every column of the part up to 32 shares; beyond that 16 evenly spaced columns plus the
+    // two at each end and the two in the middle
+    let cols: Vec<usize> = if n <= 32 {
+        (0..n).collect()
+    } else {
+        let mut c: Vec<usize> = (0..16).map(|i| i * n / 16).collect();
+        c.extend([1, n / 2 - 1, n / 2, n - 2, n - 1]);
+        c.sort();
+        c.dedup();
+        c
+    };
     let mut v = vec![];
-    for col in 0..n {
+    for &col in &cols {
         for &row in &other_rows {
             v.push(Mut::Replace { col, row });
         }
@@ -301,15 +312,17 @@ fn mutations(fx: &Fixture, i: usize, form: &str) -> Vec<Mut> {
             }
         }
     } else {
-        for a in 0..n - 1 {
-            v.push(Mut::Swap { a, b: a + 1 });
+        for &a in &cols {
+            if a + 1 < n {
+                v.push(Mut::Swap { a, b: a + 1 });
+            }
         }
         v.push(Mut::Swap { a: 0, b: n - 1 });
         v.push(Mut::Swap { a: 0, b: n / 2 });
     }
     v.push(Mut::Rotate);
     v.push(Mut::Reverse);
-    for col in 0..n {
+    for &col in &cols {
         for pos in [0usize, 29, 30, 511] {
             v.push(Mut::Flip { col, pos });
         }
@@ -327,9 +340,13 @@ fn mutations(fx: &Fixture, i: usize, form: &str) -> Vec<Mut> {
     v
 }
 
-fn explore(fx: &Fixture) -> Report {
+fn explore(fx: &Fixture, ctx: &Ctx, cap: f64) -> Report {
     let w = fx.width;
     par_cases((0..w).collect::<Vec<_>>(), |i, rep| {
+        if ctx.elapsed_s() > cap {
+            rep.cap_hit(&format!("wall cap {cap}s inside w={w} layout={}", fx.layout));
+            return;
+        }
         let base = |req: usize, form: &str, mutation: Mut| Case {
             seed: fx.seed,
             width: w,
@@ -390,7 +407,7 @@ fn main() {
                     break 'outer;
                 }
                 let fx = Fixture::build(w, l, ctx.seed).unwrap_or_else(|e| machinery_error(&ctx.id, &e));
-                let r = explore(&fx);
+                let r = explore(&fx, &ctx, cap);
                 squares.push(json!({"width": w, "layout": LAYOUTS[l], "evaluations": r.evaluations}));
                 rep.merge_in(r);
             }
@@ -404,7 +421,7 @@ fn main() {
         &ctx,
         rep,
         Spec {
-            rule: "squares = EDS widths {2,4,8,16}x3 layouts + 32x'structured' (quick) / {2,..,64}x3 layouts + 128x2 + 256x1 (thorough; 256 is the codec's maximum); per square: every source row i x forms {full struct, left-half wire, right-half wire} x { honest for index i; presented for every other index j; every listed mutation presented for i: share at every column replaced by the same column of another row (all rows for w<=16, else 5 rows), swaps (all pairs for parts <=16 shares, else adjacent + 2), rotate, reverse, 4 byte flips x every share, truncate/extend/empty, half_side flip/invalid, 2x3 wrong share lengths }. Cases are distinct by construction; mutations that leave the bytes unchanged (identical padding shares) are skipped; non-trivial = every non-honest candidate",
+            rule: "squares = EDS widths {2,4,8,16}x3 layouts + 32x'structured' (quick) / {2,..,64}x3 layouts + 128x2 + 256x1 (thorough; 256 is the codec's maximum); per square: every source row i x forms {full struct, left-half wire, right-half wire} x { honest for index i; presented for every other index j; every listed mutation presented for i: share at every column (parts of <=32 shares; beyond that 16 evenly spaced columns + both ends + middle) replaced by the same column of another row (all rows for w<=16, else 5 rows), swaps (all pairs for parts <=16 shares, else adjacent pairs at the chosen columns + 2), rotate, reverse, 4 byte flips x every chosen share, truncate/extend/empty, half_side flip/invalid, 2x3 wrong share lengths }. Cases are distinct by construction; mutations that leave the bytes unchanged (identical padding shares) are skipped; non-trivial = every non-honest candidate",
             assumptions: &[
                 "payload bytes come from VERIF_SEED (Fill); layouts, widths, indices and mutations are enumerated, never sampled",
                 "the square is what ExtendedDataSquare::from_ods produced; the brute-force view is copied from its flat share list and its DAH is re-derived by an independent NMT implementation at fixture build time",
